@@ -1,5 +1,13 @@
 package main
 
-import "runtime"
+import (
+	"runtime"
+	"syscall"
+)
 
 func runtimeStack(buf []byte) int { return runtime.Stack(buf, false) }
+
+func setRlimitAS(n uint64) {
+	lim := syscall.Rlimit{Cur: n, Max: n}
+	_ = syscall.Setrlimit(syscall.RLIMIT_AS, &lim)
+}
